@@ -39,7 +39,7 @@ class StructuredRecord(object):
 
     @classmethod
     def _get_regex(cls):
-        if cls._regex is None:
+        if cls.__dict__.get("_regex") is None:
             cls._regex = DNARegex(cls.structure())
         return cls._regex
 
